@@ -164,6 +164,20 @@ Proof. exact C12_paths_agree_proof. Qed.
 Theorem C12_selfcontained_decidable : forall N env, c12_env_okb N env = true -> c12_env_ok N env.
 Proof. exact c12_env_okb_sound. Qed.
 
+(* the side condition on defaults cannot be dropped (known finding default-calls-sibling-macro, witness replayed on
+   the engine): a default that calls a macro of its own template is evaluated in the caller's context and fails
+   wherever the caller does not hold that macro by name *)
+Theorem C12_default_sibling_refuted :
+  exists D m args,
+    c12_five_out 40 D m args [] b#"local" = Ok b#"[b<a1>]" /\
+    c12_five_out 40 D m args [] b#"self" = Ok b#"[b<a1>]" /\
+    c12_five_out 40 D m args [] b#"import" = Err EOther /\
+    c12_five_out 40 D m args [] b#"from" = Err EOther /\
+    c12_five_out 40 D m args [] b#"alias" = Err EOther /\
+    c12_params_ok (c12_minus [b#"loop"; b#"x"; b#"y"; b#"a"] (ts_sibling_macros (c12_five_env D m args) c12_lib_name))
+                  [(b#"y", Some (ECall b#"a" [ELit (LInt 1)]))] = false.
+Proof. exact C12_default_sibling_refuted_proof. Qed.
+
 (* the three repaired defects (witnesses of the former refutations): all five paths, same output *)
 Theorem C12_sibling_call_all_paths :
   map (c12_five_out 40 c12_w_sibling b#"b" [ELit (LInt 1)] []) c12_five_names = map (fun _ => Ok b#"[b1<a1>]") c12_five_names.
@@ -332,6 +346,7 @@ Print Assumptions C12_call_printed.
 Print Assumptions C12_paths_agree_in_context.
 Print Assumptions C12_paths_agree.
 Print Assumptions C12_selfcontained_decidable.
+Print Assumptions C12_default_sibling_refuted.
 Print Assumptions C12_sibling_call_all_paths.
 Print Assumptions C12_parameter_named_like_macro_all_paths.
 Print Assumptions C12_macro_named_like_function_all_paths.
